@@ -14,6 +14,7 @@ TRUSTED = ['Coq 8.16.1 kernel; no axioms (closed under the global context); no n
            'cds_lfs_*_rcu API and the single-consumer scheme are exercised by the oracle only']
 WFS_MODEL_PROGS = ['P0P1/aa/P2', 'P0/P1/aaa', 'P0P1P2/aa', 'aP0a/P1P2/a']
 WFS_STATE_PROGS = ['P0s/P1', 'P0P1s/a', 'P0s/P1/e', 'P0P1ss/P2']      # the LAST answer of pop_with_state against pushes / pop_all landing right after the pop's exchange
+WFS_REUSE_PROGS = ['P0P1pa/AR', 'P0P1P2pa/AR', 'P0P1ppa/AR']      # a pop frozen between its loads and its head cmpxchg, against a mutex-protected pop_all whose owner pushes the top node again (ABA unless the pop mutex excludes it)
 WFS_ORACLE_PROGS = ['P0P1/ps/P2e', 'P0P1P2/pp/sa', 'P0P1/nn/P2p', 'P0/P1/pe/se', 'P0P1/a/p/P2']
 LFS_PROGS = ['P0P1p/are', 'P0P1P2/pr/a', 'P0P1/pr/pr/e', 'P0P1P2/ar/pp', 'P0P1/p/a/P2r', 'P0P1/par/pe']
 
@@ -113,7 +114,8 @@ def run(ctx):
         corr_schedules(ctx, 'Wfs.v vs static/wfstack.h', wimpl, wmodel, [c for c in corpus('C11') if len(c) == 2 and 'w' == c[0][0]] + gen(ctx, WFS_MODEL_PROGS, n, True, 'C11'),
                        canon_c, oracle=oracle, nontrivial=contended, tail=tail, scenario='scen_wfs (push, pop_all + blocking iteration)')
         sgen = [(prog, '0a' * k + ('>1' if j else '1b' * 30) + '0a' * 40) for prog in WFS_STATE_PROGS for k in range(0, 40) for j in (0, 1)]
-        corr_schedules(ctx, 'wfstack LIFO', wimpl, None, sgen + gen(ctx, WFS_ORACLE_PROGS, n, True, 'C11'), canon_c, oracle=oracle, nontrivial=contended, tail=tail,
+        rgen = [(prog, '>0' * prog.split('/')[0].count('P') + '0a' * k + '>1>1' + '0a' * 40) for prog in WFS_REUSE_PROGS for k in range(0, 16)]
+        corr_schedules(ctx, 'wfstack LIFO', wimpl, None, sgen + rgen + gen(ctx, WFS_ORACLE_PROGS, n, True, 'C11'), canon_c, oracle=oracle, nontrivial=contended, tail=tail,
                        scenario='scen_wfs (blocking / with-state / non-blocking pop, empty) - oracle only')
     limpl = build_scenario(ctx, 'scen_lfs', 'scen_lfs.c')
     lmodel = build_model_driver(ctx, 'lfs', 'ExtractLfs.v', 'lfs_driver.ml')
